@@ -224,7 +224,10 @@ def opHandle (toks : List String) : String :=
     expect "MD"; let md ← counted (do let p ← text; let m ← text; pure (p, m))
     expect "C"; let cs ← counted pContent
     expect "E"; let enums ← counted (do let loc ← optText; let e ← pEnum; pure (loc, e))
-    let w : World := worldOf cwd enums existing md cs
+    -- the wire format carries no table of external functions: `default` is the `Pipe.Ext` the C05 operations use when
+    -- no table is sent.  ini / inc / po / properties never consult it (`PipeBridge.parseFile_ext_irrel`), `compare` on
+    -- DTD is not carried by this world (`Pipe.plainFmt`); `add` of a `.dtd` reference counts the words of `raw_val`.
+    let w : World := worldOf default cwd enums existing md cs
     let hw : HWorld := {
       fs := fs, cwd := cwd, junk := jk
       loadConfigs := fun _ _ _ _ =>
